@@ -6,7 +6,9 @@ from fractions import Fraction
 import core
 import gen
 
-PROOF_MODULES = ["UnytProofs.C05"]
+import c05_worlds
+
+PROOF_MODULES = ["UnytProofs.C05", "UnytProofs.C05Div"]
 
 
 def kind(u):
@@ -263,6 +265,8 @@ def run(tier, seed):
         chk.case(("eq", x, y))
         if not (Unit(x) == Unit(y)):
             chk.fail("eq-spelling", f"{x} != {y}", {"python": snippet(f"assert Unit({x!r}) == Unit({y!r})\n")})
+    # ---------------------------------------------------------------- same spelling, different stored data (histories)
+    c05_worlds.run_worlds(chk, 4 if tier == "quick" else 40, model_lines, model_expect)
     # ---------------------------------------------------------------- model correspondence
     try:
         replies = core.Model().ask(model_lines)
